@@ -458,8 +458,14 @@ func (vfs *MemFS) Mkdir(name string, perm fs.FileMode) error {
 		return &fs.PathError{Op: op, Path: "", Err: vfs.err.NoSuchDir}
 	}
 
-	// a symbolic link as last element of name is not followed : the name exists.
-	parent, _, pi, err := vfs.searchNode(name, slmLstat)
+	// a symbolic link as last element of name is not followed : the name exists,
+	// whatever it is and with or without separators after it.
+	searchName := name
+	for len(searchName) > 1 && vfs.IsPathSeparator(searchName[len(searchName)-1]) {
+		searchName = searchName[:len(searchName)-1]
+	}
+
+	parent, _, pi, err := vfs.searchNode(searchName, slmLstat)
 	if !vfs.isNotExist(err) || !pi.IsLast() {
 		return &fs.PathError{Op: op, Path: name, Err: err}
 	}
